@@ -64,6 +64,22 @@ fn q_sub_insert_set_head() {
     c.touch(&0);
     body_insert_set_head(c);
 }
+// ---- the same contracts on the corner states the 3-entry quick harnesses skip: empty and singleton caches --------
+fn small() -> LruCache<u8, SV, BH> { let n: u8 = kani::any(); kani::assume(n <= 1); prebuilt(n, 4) }
+#[kani::proof]
+#[kani::unwind(6)]
+fn q_sub_small_insert() { body_insert_set_head(small()); }       // first entry of an empty list / second entry
+#[kani::proof]
+#[kani::unwind(6)]
+fn q_sub_small_remove() { body_remove_entry(small()); }           // the only entry leaves: the seal must close on itself
+#[kani::proof]
+#[kani::unwind(6)]
+fn q_sub_small_realloc() {
+    let c = small();
+    let newcap: usize = kani::any();
+    kani::assume(newcap >= c.len() && newcap <= 2);
+    body_realloc(c, newcap);
+}
 #[kani::proof]
 #[kani::unwind(6)]
 fn t_sub_insert_set_head() { body_insert_set_head(state_t(3)); }
